@@ -148,7 +148,10 @@ class FrameCollector:
                 class_name = _self.__class__.__name__
             except BaseException:
                 # reading an attribute of a user object runs user code (__getattribute__, properties) that can fail
-                class_name = type(_self).__name__
+                try:
+                    class_name = type(_self).__name__
+                except BaseException:
+                    class_name = None
 
         var_ids = []
         # only process vars if we are under the time limit
